@@ -422,7 +422,7 @@ pub fn property() -> Property {
         level: "exploration",
         rule: "cases are (entry type in {SectionHeader,ProgramHeader,Symbol,Dyn,VersionIndex,u32,u64,Rel,Rela}, class, byte order, fixed or run-time spec, n<=40 entries encoded by the independent ELF writer from generated field values, 0..entsize-1 trailing bytes, an access script of len/is_empty/get(i)/iter/into_iter/interleaved-iterator steps, nth(k) on the advanced iterator, skip/step_by/count/last/fuse on fresh and partly consumed iterators, with i in 0..n+2, k*2^32+i and near usize::MAX incl. indices whose byte offset wraps); oracle: len==floor(bytes/ABI entsize), get(i) Ok iff i<n and equal to the encoded entry, iter and into_iter yield exactly n items with item i == get(i) == encoded entry, is_empty==(n==0), independent of order/repetition. Non-trivial: ragged byte length or an access at index len; distinct by (bytes, script) hash. Subcheck big_tables: VersionIndex/u32/u64 tables of k*65536 + {-2..3, 255..257, 0..3000} pairwise distinct entries (k in 1..3), the same oracle with accesses at 65535/65536/65537/n-1/n, nth and skip/step_by distances above 2^16; every case counts as non-trivial.",
         assumptions: &["entry sizes are the ABI sizes from <elf.h> (writer self-check)"],
-        subs: vec![Sub::new("tables", oracle, 4096, 1_500_000, 40_000_000), Sub::new("big_tables", oracle_big, 64, 1_500, 60_000).shrink(60)],
+        subs: vec![Sub::new("tables", oracle, 4096, 1_500_000, 40_000_000), Sub::new("big_tables", oracle_big, 160, 1_500, 60_000).shrink(60)],
         extras: vec![crate::fuzz::c09_choice],
     }
 }
